@@ -400,3 +400,215 @@ Proof.
     + apply (Stab_eq s1); [ds s1; unfold stab_eq; cbn; auto|]. apply (Stab_eq s); auto.
     + ds s1. unfold Prog. prj. congruence.
 Qed.
+
+(* ---------- the event handlers ---------- *)
+Lemma with_gen_Inv : forall ph (k : gen -> act) s, Inv s ->
+  (forall g rest, take_first (awaits ph) (gens s) = Some (g, rest) -> Inv (fst (k g (set_gens rest s)))) ->
+  Inv (fst (with_gen ph k s)).
+Proof.
+  intros ph k s H K. unfold with_gen. destruct (take_first (awaits ph) (gens s)) as [[g rest]|] eqn:T; [apply K; auto|exact H].
+Qed.
+
+Lemma coord_retry_end_Inv : forall x d s, Jcore (Some x) s -> Stab s -> Inv (fst ((coord_retry d ;; gen_end) s)).
+Proof.
+  intros x d s H St. unfold seq, coord_retry, new_timer.
+  change (fst (let (s2, o2) := gen_end (set_timers ((next_timer s, TCoordRetry) :: timers s) (set_next_timer (next_timer s + 1) s)) in
+               (s2, [OSched TCoordRetry d (next_timer s)] ++ o2)))
+    with (fst (gen_end (set_timers ((next_timer s, TCoordRetry) :: timers s) (set_next_timer (next_timer s + 1) s)))).
+  apply (gen_end_Inv x).
+  - ds s. jgo.
+  - ds s. exact St.
+  - right. right. left. ds s. discriminate.
+Qed.
+
+Lemma set_gens_stab : forall l s, Stab s -> Stab (set_gens l s).
+Proof. intros l s H. ds s. exact H. Qed.
+
+Lemma on_lookup_Inv : forall rid r s, Inv s -> Inv (fst (on_lookup rid r s)).
+Proof.
+  intros rid r s H. unfold on_lookup. apply with_gen_Inv; auto. intros g rest T.
+  pose proof (take_gen_J _ _ _ _ (i_core _ H) T) as (J1 & N1 & NP).
+  assert (Ag : adv g = false).
+  { apply take_first_cnt with (p := adv) in T. destruct T as (T & _). unfold awaits in T. unfold adv. destruct (g_ph g); auto; discriminate. }
+  rewrite Ag in J1. pose proof (set_gens_stab rest s (i_stab _ H)) as St.
+  assert (NP' : start_d (set_gens rest s) <> None \/ stopping (set_gens rest s) = true) by (ds s; exact NP).
+  destruct r as [| |k].
+  - unfold fresh_rid. cbn [fst].
+    apply (add_gen_Inv (g_id g) false); auto.
+    + eapply Jcore_frame; [|exact J1]. ds s. frame.
+    + ds s. exact St.
+    + cbn. discriminate.
+    + intros E. apply N1. ds s. exact E.
+  - apply (coord_retry_end_Inv _ _ _ J1 St).
+  - destruct k; try apply (coord_retry_end_Inv _ _ _ J1 St); apply (gen_fail_Inv _ _ _ J1 St NP').
+Qed.
+
+Lemma send_join_Inv : forall gid b s, Jcore (Some (gid, b)) s -> Stab s -> consumers s = [] -> (b = true \/ stopping s = false) ->
+  (stopping s = false -> rejoin_needed s = true) -> Inv (fst (send_join gid s)).
+Proof.
+  intros gid b s H St Hc Hb Hn.
+  change (fst (send_join gid s)) with (add_gen (mkGen gid (GJoin (next_rid s))) (set_next_rid (next_rid s + 1) s)).
+  apply (add_gen_Inv gid b); auto.
+  - eapply Jcore_frame; [|exact H]. ds s. frame.
+  - ds s. exact St.
+  - intros _. ds s. auto.
+  - ds s. exact Hn.
+Qed.
+
+Lemma send_sync_Inv : forall gid ld s, Jcore (Some (gid, true)) s -> Stab s -> consumers s = [] ->
+  (stopping s = false -> rejoin_needed s = true) -> Inv (fst (send_sync gid ld s)).
+Proof.
+  intros gid ld s H St Hc Hn.
+  change (fst (send_sync gid ld s)) with (add_gen (mkGen gid (GSync (next_rid s))) (set_next_rid (next_rid s + 1) s)).
+  apply (add_gen_Inv gid true); auto.
+  - eapply Jcore_frame; [|exact H]. ds s. frame.
+  - ds s. exact St.
+  - intros _. ds s. auto.
+  - ds s. exact Hn.
+Qed.
+
+Lemma prepare_and_join_Inv : forall gid s, Jcore (Some (gid, false)) s -> Stab s -> stopping s = false -> rejoin_needed s = true ->
+  Inv (fst (prepare_and_join gid s)).
+Proof.
+  intros gid s H St Hs Hn. unfold prepare_and_join. destruct (is_group s) eqn:G.
+  - destruct (consumers s) as [|c cs'] eqn:C.
+    + apply (send_join_Inv gid false); auto.
+    + unfold begin_shutdown. cbn [fst].
+      apply (add_gen_Inv gid false).
+      * ds s. prj. subst. jgo.
+      * ds s. exact St.
+      * reflexivity.
+      * intros _. ds s. prj. auto.
+      * ds s. prj. auto.
+  - apply (send_join_Inv gid false); auto. apply (j1 _ _ H G).
+Qed.
+
+Lemma stop_pend_cases : forall s, stop_pend s = true -> stopping s = true \/ stop_requested s = true.
+Proof. intros s. unfold stop_pend. destruct (stopping s), (stop_requested s); auto. Qed.
+Lemma stop_pend_false : forall s, stop_pend s = false -> stopping s = false /\ stop_requested s = false.
+Proof. intros s. unfold stop_pend. destruct (stopping s), (stop_requested s); auto; discriminate. Qed.
+
+Lemma on_meta_Inv : forall rid r s, Inv s -> Inv (fst (on_meta rid r s)).
+Proof.
+  intros rid r s H. unfold on_meta. apply with_gen_Inv; auto. intros g rest T.
+  pose proof (take_gen_J _ _ _ _ (i_core _ H) T) as (J1 & N1 & NP).
+  assert (Ag : adv g = false).
+  { apply take_first_cnt with (p := adv) in T. destruct T as (T & _). unfold awaits in T. unfold adv. destruct (g_ph g); auto; discriminate. }
+  rewrite Ag in J1. pose proof (set_gens_stab rest s (i_stab _ H)) as St.
+  assert (NP' : start_d (set_gens rest s) <> None \/ stopping (set_gens rest s) = true) by (ds s; exact NP).
+  destruct r as [|k]; [|apply (gen_fail_Inv _ _ _ J1 St NP')].
+  destruct (stop_pend (set_gens rest s)) eqn:SP.
+  - apply (gen_end_Inv _ _ J1 St). apply stop_pend_cases in SP. intuition.
+  - apply stop_pend_false in SP. destruct SP as [SP1 SP2].
+    apply prepare_and_join_Inv.
+    + eapply Jcore_frame; [|exact J1]. ds s. frame.
+    + ds s. exact St.
+    + ds s. exact SP1.
+    + assert (X : stopping s = false) by (ds s; exact SP1). destruct (N1 X). ds s. auto.
+Qed.
+
+Lemma rae_end_Inv : forall x k s, Jcore (Some x) s -> start_d s <> None \/ stopping s = true ->
+  Inv (fst ((rejoin_after_error k ;; gen_end) s)).
+Proof.
+  intros x k s H Hn. unfold seq.
+  pose proof (rejoin_after_error_J (Some x) k s H Hn) as [A B].
+  destruct (rejoin_after_error k s) as [s1 o1]. cbn [fst] in *.
+  destruct (rae_Stab_Prog _ B) as [St _].
+  pose proof (gen_end_Inv x s1 A St ltac:(intuition)) as X. destruct (gen_end s1). exact X.
+Qed.
+
+Lemma adv_cons_nil : forall gid s, Jcore (Some (gid, true)) s -> consumers s = [].
+Proof. intros gid s H. destruct (j2 _ _ H) as [X|X]; auto. cbn in X. lia. Qed.
+
+Lemma awaits_adv : forall ph g, awaits ph g = true -> adv g = match ph with GLookup _ | GMeta _ => false | _ => true end.
+Proof. intros ph g. unfold awaits, adv. destruct ph, (g_ph g); auto; discriminate. Qed.
+
+Lemma on_join_Inv : forall rid r s, Inv s -> Inv (fst (on_join rid r s)).
+Proof.
+  intros rid r s H. unfold on_join. apply with_gen_Inv; auto. intros g rest T.
+  pose proof (take_gen_J _ _ _ _ (i_core _ H) T) as (J1 & N1 & NP).
+  assert (Ag : adv g = true).
+  { apply take_first_cnt with (p := adv) in T. destruct T as (T & _). apply awaits_adv in T. exact T. }
+  rewrite Ag in J1. pose proof (set_gens_stab rest s (i_stab _ H)) as St.
+  assert (NP' : start_d (set_gens rest s) <> None \/ stopping (set_gens rest s) = true) by (ds s; exact NP).
+  pose proof (adv_cons_nil _ _ J1) as C0.
+  destruct r as [gn mem role|k]; [|apply (rae_end_Inv _ _ _ J1 NP')].
+  unfold seq, upd.
+  set (s1 := set_cur_assign [] (set_generation gn (set_member mem (set_gens rest s)))).
+  assert (J2 : Jcore (Some (g_id g, true)) s1). { subst s1. ds s. prj. subst. jgo. }
+  assert (St2 : Stab s1). { subst s1. ds s. exact St. }
+  assert (C2 : consumers s1 = []). { subst s1. ds s. exact C0. }
+  assert (N2 : stopping s1 = false -> rejoin_needed s1 = true). { subst s1. intros E. assert (X : stopping s = false) by (ds s; exact E). destruct (N1 X). ds s. auto. }
+  assert (NP2 : start_d s1 <> None \/ stopping s1 = true). { subst s1. ds s. exact NP. }
+  clearbody s1.
+  assert (G : forall (a : act), Inv (fst (a s1)) -> Inv (fst (let (s2, o2) := a s1 in (s2, [] ++ o2)))).
+  { intros a X. destruct (a s1). exact X. }
+  apply G.
+  destruct (stop_pend s1) eqn:SP.
+  - apply (gen_end_Inv _ _ J2 St2). apply stop_pend_cases in SP. intuition.
+  - destruct (role =? 0).
+    + apply (send_sync_Inv _ _ _ J2 St2 C2 N2).
+    + destruct (role =? 1).
+      * unfold fresh_rid. cbn [fst]. apply (add_gen_Inv (g_id g) true); auto.
+        -- eapply Jcore_frame; [|exact J2]. ds s1. frame.
+        -- ds s1. exact St2.
+        -- intros _. ds s1. auto.
+        -- ds s1. exact N2.
+      * apply (gen_fail_Inv _ _ _ J2 St2 NP2).
+Qed.
+
+Lemma on_parts_Inv : forall rid r s, Inv s -> Inv (fst (on_parts rid r s)).
+Proof.
+  intros rid r s H. unfold on_parts. apply with_gen_Inv; auto. intros g rest T.
+  pose proof (take_gen_J _ _ _ _ (i_core _ H) T) as (J1 & N1 & NP).
+  assert (Ag : adv g = true).
+  { apply take_first_cnt with (p := adv) in T. destruct T as (T & _). apply awaits_adv in T. exact T. }
+  rewrite Ag in J1. pose proof (set_gens_stab rest s (i_stab _ H)) as St.
+  assert (NP' : start_d (set_gens rest s) <> None \/ stopping (set_gens rest s) = true) by (ds s; exact NP).
+  pose proof (adv_cons_nil _ _ J1) as C0.
+  destruct r as [| |k]; try apply (gen_fail_Inv _ _ _ J1 St NP').
+  destruct (stop_pend (set_gens rest s)) eqn:SP.
+  - apply (gen_end_Inv _ _ J1 St). apply stop_pend_cases in SP. intuition.
+  - apply (send_sync_Inv _ _ _ J1 St C0). intros E. assert (X : stopping s = false) by (ds s; exact E). destruct (N1 X). ds s. auto.
+Qed.
+
+(* consumers started by on_join_complete *)
+Lemma insert_by_Forall : forall A (key : A -> Z) (P : A -> Prop) x l, P x -> Forall P l -> Forall P (insert_by key x l).
+Proof.
+  intros A key P x l Hx Hl. induction Hl as [|y l Hy Hl IH]; cbn [insert_by]; [constructor; auto|].
+  destruct ((key y =? key x) && negb (existsb (fun z => key z =? key x) l)); repeat constructor; auto.
+Qed.
+Lemma insert_by_In : forall A (key : A -> Z) x y l, In y (insert_by key x l) -> y = x \/ In y l.
+Proof.
+  intros A key x y l. induction l as [|z l IH]; cbn [insert_by]; [intros [->|[]]; auto|].
+  destruct ((key z =? key x) && negb (existsb (fun w => key w =? key x) l)).
+  - intros [->|[->|H]]; auto; right; [left|right]; auto.
+  - intros [->|H]; [right; left; auto|]. destruct (IH H); auto. right; right; auto.
+Qed.
+Lemma group_by_topic_In : forall asg x, In x (group_by_topic asg) -> In x asg.
+Proof.
+  intros asg x. unfold group_by_topic.
+  assert (G : forall l acc, In x (fold_left (fun acc tp => insert_by fst tp acc) l acc) -> In x l \/ In x acc).
+  { induction l as [|y l IH]; cbn [fold_left]; intros acc H; [auto|].
+    destruct (IH _ H) as [X|X]; [left; right; auto|]. apply insert_by_In in X. destruct X as [->|X]; [left; left; auto|auto]. }
+  intros H. destruct (G _ _ H) as [X|[]]; auto.
+Qed.
+
+Lemma start_consumers_spec : forall tps s, let s' := fst (start_consumers tps s) in
+  same_core (set_consumers (consumers s') s) s' /\
+  (forall P : consumer -> Prop, Forall P (consumers s) ->
+     (forall t p cid, In (t, p) tps -> P (mkC cid t p (generation s) (member s) false)) -> Forall P (consumers s')).
+Proof.
+  induction tps as [|[t p] tps IH]; intros s; cbn [start_consumers].
+  - unfold skip. cbn [fst]. split; [ds s; frame|auto].
+  - unfold seq.
+    set (s1 := set_consumers (insert_by c_topic (mkC (next_cid s) t p (generation s) (member s) false) (consumers s)) (set_next_cid (next_cid s + 1) s)).
+    change (fst (let (s2, o2) := start_consumers tps s1 in (s2, [OStartC (c_id (mkC (next_cid s) t p (generation s) (member s) false)) t p
+               (c_gen (mkC (next_cid s) t p (generation s) (member s) false)) (c_mem (mkC (next_cid s) t p (generation s) (member s) false))] ++ o2)))
+      with (fst (start_consumers tps s1)).
+    destruct (IH s1) as [A B]. split.
+    + subst s1. ds s. unfold same_core in *. prj. exact A.
+    + intros P HP HA. apply B.
+      * subst s1. ds s. prj. apply insert_by_Forall; auto. apply HA. left; auto.
+      * intros t' p' cid Hin. subst s1. ds s. prj. apply HA. right; auto.
+Qed.
